@@ -126,10 +126,15 @@ def run(shard, ctx):
         ctx.sample({"input": "H#", "is_valid_note": notes.is_valid_note("H#")})
     elif kind == "ints":
         vals = list(range(-50, 51)) + [2 ** k for k in range(4, 70)] + [-2 ** k for k in range(4, 70)] + [12, 11, -1]
-        for i in vals:
+        # integers with more digits than the interpreter converts to decimal text (4300 by default)
+        vals += [10 ** 4299, 10 ** 4300, 10 ** 5000, -(10 ** 5000), 1 << 20000, 12 + (1 << 15000)]
+        for big in vals:
             for style in ("#", "b"):
+                i = big
                 st, v = ctx.call(notes.int_to_note, i, style)
-                if 0 <= i <= 11:
+                if abs(i) > 10 ** 100:
+                    i = "about 2**%d" % i.bit_length() if i > 0 else "about -2**%d" % i.bit_length()      # (witnesses stay printable)
+                if not isinstance(i, str) and 0 <= i <= 11:
                     ok = (st == "ok" and T.valid(v) and len(v) <= 2 and (len(v) == 1 or v[1] == style)
                           and T.pc(v) == i)
                     ctx.check("int_to_note: style and round trip", ok, {"int": i, "style": style}, None, repr(v))
